@@ -16,19 +16,52 @@
 //   - any call that is handed a function literal / a function of the package
 //     that is itself fallible (ForEach(func(k, v []byte) error { ... Put ... })).
 //
-// Dispositions:
+// Dispositions (code = what Generated/ErrFlow.v and the Coq model see):
 //
-//	returned               the call is (part of) the error result of a return
-//	                       statement, possibly wrapped: return wrap(f(..))
-//	checked_and_returned   if err := f(..); err != nil { return .. <error> }
-//	assigned_then_checked  err = f(..) ... if err != nil { return .. <error> }
-//	                       (also: err = f(..) ... return .. err)
-//	dropped                call used as a statement, error assigned to _,
-//	                       error overwritten or never looked at before the
-//	                       function ends, or the error branch leaves with a
-//	                       nil error / continue / break without using it
-//	deferred               defer f(..)
-//	unknown                none of the shapes above was recognised
+//	returned               0  the call is (part of) the error result of a return
+//	                          statement, possibly wrapped: return wrap(f(..))
+//	checked_and_returned   0  if err := f(..); err != nil { return .. <error> }
+//	assigned_then_checked  0  err = f(..) ... if err != nil { return .. <error> }
+//	                          (also: err = f(..) ... return .. err)
+//	dropped_return         1  the error branch returns a nil error without
+//	                          using the error: if err != nil { return nil }
+//	dropped_continue       2  call used as a statement, error assigned to _,
+//	                          go statement, `ok := f() == nil` that no return
+//	                          depends on, error overwritten or never looked at
+//	                          before the function ends, error branch that falls
+//	                          through / continues / breaks without using it
+//	deferred_drop          3  defer f(..): the error of a call that can write
+//	                          is discarded when the function exits
+//	logged_return          4  if err != nil { log...(err); return nil }
+//	logged_continue        5  if err != nil { log...(err) } (falls through,
+//	                          continue, break)
+//	unknown                6  none of the shapes above was recognised.  Counts
+//	                          as NOT propagated: the proof obligation of every
+//	                          operation using the site fails, and the fault
+//	                          sweep decides whether a failing input exists.
+//
+// Only code 0 counts as propagated.  A site can be put on the reviewed
+// exception list below (keyed by package, function and callee, with the
+// reason); it is then emitted with code 0 and the reason.
+//
+// Site ids: "<pkg>:<function>><callee>" with walletdb receivers shortened to
+// "db." (all calls of one callee made by one function are one site; its code is
+// the worst of them).  The Coq transcription names sites by these ids.
+//
+// Memory shapes.  For every function of the packages that can write, the
+// order of its database writes (W) and of its assignments to manager memory
+// (M: an assignment, delete(), copy(), zero.Bytes(), a mutating method, whose
+// target is reached from the receiver) is determined by abstract execution of
+// the body (both branches of a conditional from the same state, loop bodies
+// twice, branches ending in return dropped, calls of package functions
+// replaced by their own summary).  M inside a closure handed to OnCommit is
+// "at commit".  M inside a function that only gets a walletdb.ReadBucket and
+// cannot write is a read-side cache fill and is not counted.
+//
+//	none       0  no M
+//	after      1  no W is executed after an M
+//	at_commit  2  as `none`, plus effects registered with OnCommit
+//	before     3  some W can follow an M
 //
 // Types come from go/types run with an importer that only knows the
 // repository's own walletdb package (parsed from <repo>/walletdb); every other
@@ -59,8 +92,12 @@ var primitives = map[string]bool{
 	"Update": true, "Batch": true,
 }
 
-// allow-list: sites whose error is legitimately not propagated.  Every entry
-// needs a justification; it is printed in the output and in the report.
+// reviewed exceptions: sites whose error is legitimately not propagated, or
+// whose shape the classifier does not recognise but which were reviewed (the
+// fault sweep of the check exercises them on every run).  Keyed by package,
+// function and callee; every entry needs a justification; it is printed in the
+// output, in Generated/ErrFlow.v and in the evidence.  (None is needed for the
+// present tree: no site is classified unknown, deferred or dropped.)
 type allowEntry struct {
 	Pkg, Func, Callee, Why string
 }
@@ -68,6 +105,8 @@ type allowEntry struct {
 var allowList = []allowEntry{}
 
 type site struct {
+	ID      string `json:"id"`
+	Code    int    `json:"code"`
 	Pkg     string `json:"pkg"`
 	Func    string `json:"func"`
 	Callee  string `json:"callee"`
@@ -79,10 +118,36 @@ type site struct {
 	Allowed string `json:"allowed,omitempty"`
 }
 
+type shapeRow struct {
+	Func   string `json:"func"` // "<pkg>:<function>"
+	Shape  string `json:"shape"`
+	Code   int    `json:"code"`
+	Writes bool   `json:"writes"`
+	Detail string `json:"detail,omitempty"`
+}
+
+var dispCode = map[string]int{
+	"returned": 0, "checked_and_returned": 0, "assigned_then_checked": 0,
+	"dropped_return": 1, "dropped_continue": 2, "deferred_drop": 3,
+	"logged_return": 4, "logged_continue": 5, "unknown": 6,
+}
+
+func shortCallee(c string) string {
+	for _, p := range []string{"walletdb.ReadWriteBucket.", "walletdb.ReadWriteTx.", "walletdb.ReadWriteCursor.", "walletdb."} {
+		if strings.HasPrefix(c, p) {
+			return "db." + c[len(p):]
+		}
+	}
+	return c
+}
+
 type result struct {
+	Shapes   []shapeRow          `json:"shapes"`
 	Sites    []site              `json:"sites"`
 	Fallible map[string][]string `json:"fallible"`
 	Indirect []string            `json:"indirect"` // calls of function values returning error (not classified)
+	// functions whose assignments to memory are read-side cache fills (not counted in the shapes)
+	ReadCaches []string `json:"read_caches"`
 }
 
 func die(format string, a ...interface{}) {
@@ -158,6 +223,10 @@ type analysis struct {
 	fallible map[*types.Func]bool
 	sites    []site
 	indirect []string
+
+	summaries  map[*types.Func]*memSummary
+	readCaches map[string]bool
+	resultObjs map[types.Object]bool // the named results of every function
 }
 
 func isErrorType(t types.Type) bool {
@@ -311,16 +380,23 @@ type unit struct {
 	body      *ast.BlockStmt
 	errResult bool
 	named     map[string]bool // named results of type error
+	parent    *unit           // enclosing function, for closures
 }
 
 func (a *analysis) mkUnit(name string, ft *ast.FuncType, body *ast.BlockStmt) *unit {
 	u := &unit{name: name, ftype: ft, body: body, named: map[string]bool{}}
+	if a.resultObjs == nil {
+		a.resultObjs = map[types.Object]bool{}
+	}
 	if ft.Results != nil && len(ft.Results.List) > 0 {
 		last := ft.Results.List[len(ft.Results.List)-1]
 		if isErrorType(a.info.TypeOf(last.Type)) {
 			u.errResult = true
 			for _, n := range last.Names {
 				u.named[n.Name] = true
+				if o := a.info.Defs[n]; o != nil {
+					a.resultObjs[o] = true
+				}
 			}
 		}
 	}
@@ -355,6 +431,33 @@ func mentions(n ast.Node, name string) bool {
 		return !found
 	})
 	return found
+}
+
+// mentionsVar: does n mention the variable (the same object when the type
+// checker resolved it: an inner `err :=` shadows the outer err)?
+func (a *analysis) mentionsVar(n ast.Node, name string, obj types.Object) bool {
+	if n == nil {
+		return false
+	}
+	found := false
+	ast.Inspect(n, func(x ast.Node) bool {
+		if id, ok := x.(*ast.Ident); ok && id.Name == name {
+			if obj == nil {
+				found = true
+			} else if o := a.objOf(id); o == nil || o == obj {
+				found = true
+			}
+		}
+		return !found
+	})
+	return found
+}
+
+func (a *analysis) objOf(id *ast.Ident) types.Object {
+	if o := a.info.Defs[id]; o != nil {
+		return o
+	}
+	return a.info.Uses[id]
 }
 
 func isNilIdent(e ast.Expr) bool {
@@ -415,21 +518,65 @@ func sentinelOf(c ast.Expr) string {
 	return ""
 }
 
+// isLogCall: log.Warnf(..) and friends (the package logger of btcwallet, or the
+// standard log / fmt printing functions).
+func isLogCall(c *ast.CallExpr) bool {
+	sel, ok := ast.Unparen(c.Fun).(*ast.SelectorExpr)
+	if !ok {
+		return false
+	}
+	id, ok := ast.Unparen(sel.X).(*ast.Ident)
+	if !ok {
+		return false
+	}
+	switch id.Name {
+	case "log", "logger":
+		return true
+	case "fmt":
+		return strings.HasPrefix(sel.Sel.Name, "Print") || strings.HasPrefix(sel.Sel.Name, "Fprint")
+	}
+	return false
+}
+
 // verdict on how an error branch (taken when v != nil) ends.
 //
-//	"ok"      every path that leaves through a return reports an error
-//	"dropped" the branch leaves (return nil-error / continue / break / falls
-//	          out) without ever using v
-//	"unknown" anything else
+//	"ok"               every path that leaves through a return reports an error
+//	                   (or the error is stored in a named error result of an
+//	                   enclosing function: the deferred-closure idiom)
+//	"dropped_return"   the branch returns a nil error without using v
+//	"dropped_continue" the branch falls through / continues / breaks without
+//	                   using v
+//	"logged_return", "logged_continue"  the same, v only handed to a logger
+//	"unknown"          anything else
 func (a *analysis) errBranch(u *unit, body *ast.BlockStmt, v string) (string, string) {
-	uses := false
+	logUses, otherUses := 0, 0
+	storedInResult := false
 	returnsErr, returnsNil, otherExit := 0, 0, 0
-	var walk func(n ast.Node)
-	walk = func(n ast.Node) {
+	var walk func(n ast.Node, inLog bool)
+	walk = func(n ast.Node, inLog bool) {
 		ast.Inspect(n, func(x ast.Node) bool {
 			switch s := x.(type) {
 			case *ast.FuncLit:
 				return false
+			case *ast.CallExpr:
+				if !inLog && isLogCall(s) {
+					for _, arg := range s.Args {
+						walk(arg, true)
+					}
+					return false
+				}
+			case *ast.AssignStmt:
+				// retErr = err (named error result of this or an enclosing function)
+				if len(s.Lhs) == 1 && len(s.Rhs) == 1 && mentions(s.Rhs[0], v) {
+					if id, ok := s.Lhs[0].(*ast.Ident); ok {
+						for w := u; w != nil; w = w.parent {
+							if w.named[id.Name] {
+								storedInResult = true
+								return false
+							}
+						}
+					}
+				}
 			case *ast.ReturnStmt:
 				if len(s.Results) == 0 {
 					if u.named[v] {
@@ -468,20 +615,32 @@ func (a *analysis) errBranch(u *unit, body *ast.BlockStmt, v string) (string, st
 				}
 			case *ast.Ident:
 				if s.Name == v {
-					uses = true
+					if inLog {
+						logUses++
+					} else {
+						otherUses++
+					}
 				}
 			}
 			return true
 		})
 	}
-	walk(body)
+	walk(body, false)
 	switch {
 	case returnsErr > 0 && returnsNil == 0 && otherExit == 0:
 		return "ok", ""
-	case returnsNil > 0 && !uses:
-		return "dropped", "error branch returns a nil error without using " + v
-	case returnsErr == 0 && !uses:
-		return "dropped", "error branch leaves without using " + v
+	case storedInResult && returnsNil == 0:
+		return "ok", "stored in a named error result"
+	case otherUses > 0:
+		return "unknown", "error branch of unrecognised shape (uses " + v + ")"
+	case returnsNil > 0 && returnsErr == 0 && logUses > 0:
+		return "logged_return", "error branch logs " + v + " and returns a nil error"
+	case returnsNil > 0 && returnsErr == 0:
+		return "dropped_return", "error branch returns a nil error without using " + v
+	case returnsErr == 0 && logUses > 0:
+		return "logged_continue", "error branch logs " + v + " and goes on"
+	case returnsErr == 0:
+		return "dropped_continue", "error branch leaves without using " + v
 	}
 	return "unknown", "error branch of unrecognised shape"
 }
@@ -546,7 +705,16 @@ func findPath(list []ast.Stmt, pos token.Pos) []pathEl {
 
 // scanForward looks at the statements following position (path) for the first
 // one that examines variable v.
-func (a *analysis) scanForward(u *unit, path []pathEl, v string) (string, string) {
+func (a *analysis) scanForward(u *unit, path []pathEl, v string, obj types.Object) (string, string) {
+	leftLoop := 0 // line of the innermost loop the assignment sits in and that was left without finding a use
+	res, why := a.scanForward1(u, path, v, obj, &leftLoop)
+	if leftLoop > 0 && (res == "assigned_then_checked" || res == "returned") {
+		return "dropped_continue", fmt.Sprintf("assigned inside the loop at line %d, examined only after it: overwritten by the next iteration", leftLoop)
+	}
+	return res, why
+}
+
+func (a *analysis) scanForward1(u *unit, path []pathEl, v string, obj types.Object, leftLoop *int) (string, string) {
 	for depth := len(path) - 1; depth >= 0; depth-- {
 		el := path[depth]
 		switch el.stmt.(type) {
@@ -554,16 +722,26 @@ func (a *analysis) scanForward(u *unit, path []pathEl, v string) (string, string
 			// the sibling clauses are alternatives, not successors
 			continue
 		}
+		if depth < len(path)-1 {
+			// el.stmt contains the assignment: when it is a loop, everything
+			// scanned from here on comes after the loop
+			switch el.stmt.(type) {
+			case *ast.ForStmt, *ast.RangeStmt:
+				if *leftLoop == 0 {
+					*leftLoop = a.fset.Position(el.stmt.Pos()).Line
+				}
+			}
+		}
 		for i := el.idx + 1; i < len(el.list); i++ {
 			s := el.list[i]
-			if !mentions(s, v) {
+			if !a.mentionsVar(s, v, obj) {
 				continue
 			}
 			switch x := s.(type) {
 			case *ast.IfStmt:
 				if x.Init != nil && mentions(x.Init, v) {
 					if as, ok := x.Init.(*ast.AssignStmt); ok && assignsTo(as, v) && !rhsMentions(as, v) {
-						return "dropped", fmt.Sprintf("%s overwritten at line %d before being examined", v, a.fset.Position(as.Pos()).Line)
+						return "dropped_continue", fmt.Sprintf("%s overwritten at line %d before being examined", v, a.fset.Position(as.Pos()).Line)
 					}
 					return "unknown", "used in an if-init"
 				}
@@ -595,7 +773,7 @@ func (a *analysis) scanForward(u *unit, path []pathEl, v string) (string, string
 				return "unknown", "returned in a non-error position"
 			case *ast.AssignStmt:
 				if assignsTo(x, v) && !rhsMentions(x, v) {
-					return "dropped", fmt.Sprintf("%s overwritten at line %d before being examined", v, a.fset.Position(x.Pos()).Line)
+					return "dropped_continue", fmt.Sprintf("%s overwritten at line %d before being examined", v, a.fset.Position(x.Pos()).Line)
 				}
 				return "unknown", "used in an assignment"
 			default:
@@ -610,9 +788,17 @@ func (a *analysis) scanForward(u *unit, path []pathEl, v string) (string, string
 		// packages; continue with the enclosing list.
 	}
 	if u.named[v] {
+		if obj != nil {
+			if _, isResult := a.resultObjs[obj]; !isResult {
+				return "dropped_continue", v + " (a variable shadowing the named result) is never examined"
+			}
+		}
 		return "returned", "named result"
 	}
-	return "dropped", v + " is never examined before the function ends"
+	if obj != nil {
+		return "dropped_continue", v + " is never examined before its scope ends (a later " + v + " is another variable)"
+	}
+	return "dropped_continue", v + " is never examined before the function ends"
 }
 
 func condIsErrEqNil(c ast.Expr, v string) bool {
@@ -691,19 +877,22 @@ func (a *analysis) classify(u *unit, call *ast.CallExpr, parents []ast.Node) (st
 			direct = false
 		}
 	}
+	if bin := nilComparison(parents[si+1:]); bin != nil {
+		return a.comparedWithNil(u, stmt, bin, call, parents[:si])
+	}
 	switch s := stmt.(type) {
 	case *ast.ExprStmt:
 		if direct && !wrapped {
-			return "dropped", "call used as a statement"
+			return "dropped_continue", "call used as a statement"
 		}
 		return "unknown", "inside an expression statement"
 	case *ast.DeferStmt:
-		return "deferred", ""
+		return "deferred_drop", "defer: the error of a call that can write is discarded"
 	case *ast.GoStmt:
-		return "dropped", "go statement"
+		return "dropped_continue", "go statement"
 	case *ast.ReturnStmt:
 		if !u.errResult {
-			return "dropped", "returned from a function without error result"
+			return "dropped_continue", "returned from a function without error result"
 		}
 		last := s.Results[len(s.Results)-1]
 		if contains(last, call.Pos()) && direct {
@@ -742,10 +931,125 @@ func (a *analysis) classify(u *unit, call *ast.CallExpr, parents []ast.Node) (st
 	return "unknown", fmt.Sprintf("inside %T", stmt)
 }
 
+// nilComparison: the nodes between the statement and the call are parentheses
+// around exactly one comparison of the call's result with nil.
+func nilComparison(between []ast.Node) *ast.BinaryExpr {
+	var bin *ast.BinaryExpr
+	for _, n := range between {
+		switch x := n.(type) {
+		case *ast.ParenExpr:
+		case *ast.BinaryExpr:
+			if bin != nil || (x.Op != token.EQL && x.Op != token.NEQ) || !(isNilIdent(x.X) || isNilIdent(x.Y)) {
+				return nil
+			}
+			bin = x
+		default:
+			return nil
+		}
+	}
+	return bin
+}
+
+// boolCond: does cond hold exactly when b is `want`?  (`b`, `!b`, `b == true`...)
+func boolCond(cond ast.Expr, b string, want bool) bool {
+	switch x := ast.Unparen(cond).(type) {
+	case *ast.Ident:
+		return x.Name == b && want
+	case *ast.UnaryExpr:
+		if x.Op == token.NOT {
+			return boolCond(x.X, b, !want)
+		}
+	}
+	return false
+}
+
+// comparedWithNil classifies `if f() != nil { .. }`, `if f() == nil { .. } else { .. }`
+// and `ok := f() == nil` (the error value itself is discarded; what matters is
+// whether a return of an error depends on the comparison).
+func (a *analysis) comparedWithNil(u *unit, stmt ast.Stmt, bin *ast.BinaryExpr, call *ast.CallExpr, above []ast.Node) (string, string) {
+	const none = "\x00no-variable"
+	failedWhenTrue := bin.Op == token.NEQ // the comparison is true when the call failed
+	verdictOf := func(blk *ast.BlockStmt) (string, string) {
+		v, why := a.errBranch(u, blk, none)
+		if v == "ok" {
+			return "checked_and_returned", "compared with nil; the branch returns an error of its own"
+		}
+		return v, "compared with nil: " + strings.TrimSpace(strings.ReplaceAll(why, none, "the error"))
+	}
+	switch s := stmt.(type) {
+	case *ast.IfStmt:
+		if !contains(s.Cond, call.Pos()) || ast.Unparen(s.Cond) != ast.Expr(bin) {
+			return "unknown", "compared with nil inside a larger condition"
+		}
+		if failedWhenTrue {
+			return verdictOf(s.Body)
+		}
+		if blk, ok := s.Else.(*ast.BlockStmt); ok {
+			return verdictOf(blk)
+		}
+		return "dropped_continue", "compared with nil; the failure case falls through"
+	case *ast.AssignStmt:
+		if len(s.Lhs) != 1 || len(s.Rhs) != 1 || ast.Unparen(s.Rhs[0]) != ast.Expr(bin) {
+			return "unknown", "compared with nil inside an assignment expression"
+		}
+		id, ok := s.Lhs[0].(*ast.Ident)
+		if !ok || id.Name == "_" {
+			return "dropped_continue", "compared with nil and the result discarded"
+		}
+		b := id.Name
+		path := findPath(u.body.List, s.Pos())
+		for depth := len(path) - 1; depth >= 0; depth-- {
+			el := path[depth]
+			for i := el.idx + 1; i < len(el.list); i++ {
+				st := el.list[i]
+				if !mentions(st, b) {
+					continue
+				}
+				if is, ok := st.(*ast.IfStmt); ok && is.Init == nil {
+					if boolCond(is.Cond, b, failedWhenTrue) {
+						return verdictOf(is.Body)
+					}
+					if blk, ok := is.Else.(*ast.BlockStmt); ok && boolCond(is.Cond, b, !failedWhenTrue) {
+						return verdictOf(blk)
+					}
+				}
+				return "dropped_continue", "only compared with nil (" + b + "); no return of an error depends on it"
+			}
+		}
+		return "dropped_continue", "only compared with nil (" + b + "); never looked at"
+	}
+	return "unknown", "compared with nil in an unrecognised statement"
+}
+
+func (a *analysis) lhsObj(s ast.Stmt, v string) types.Object {
+	var obj types.Object
+	ast.Inspect(s, func(x ast.Node) bool {
+		switch y := x.(type) {
+		case *ast.AssignStmt:
+			for _, l := range y.Lhs {
+				if id, ok := l.(*ast.Ident); ok && id.Name == v && obj == nil {
+					obj = a.objOf(id)
+				}
+			}
+			return false
+		case *ast.ValueSpec:
+			for _, id := range y.Names {
+				if id.Name == v && obj == nil {
+					obj = a.objOf(id)
+				}
+			}
+			return false
+		}
+		return obj == nil
+	})
+	return obj
+}
+
 func (a *analysis) afterAssign(u *unit, s ast.Stmt, v string, call *ast.CallExpr, above []ast.Node) (string, string) {
 	if v == "_" {
-		return "dropped", "error assigned to _"
+		return "dropped_continue", "error assigned to _"
 	}
+	obj := a.lhsObj(s, v)
 	// if-init form?
 	if len(above) > 0 {
 		if is, ok := above[len(above)-1].(*ast.IfStmt); ok && is.Init == s {
@@ -760,7 +1064,7 @@ func (a *analysis) afterAssign(u *unit, s ast.Stmt, v string, call *ast.CallExpr
 				// special value peeled off (err == ErrX): v stays pending, but a
 				// variable declared in the if-init is out of scope afterwards
 				if as, ok := s.(*ast.AssignStmt); ok && as.Tok == token.DEFINE {
-					return "dropped", "only compared with a special value inside the if statement"
+					return "dropped_continue", "only compared with a special value inside the if statement"
 				}
 				path := findPath(u.body.List, is.Pos())
 				if path == nil {
@@ -773,7 +1077,7 @@ func (a *analysis) afterAssign(u *unit, s ast.Stmt, v string, call *ast.CallExpr
 						break
 					}
 				}
-				return a.scanForward(u, path, v)
+				return a.scanForward(u, path, v, obj)
 			}
 			return "unknown", "if-init with unrecognised condition"
 		}
@@ -786,7 +1090,7 @@ func (a *analysis) afterAssign(u *unit, s ast.Stmt, v string, call *ast.CallExpr
 	if path == nil {
 		return "unknown", "statement not found in function body"
 	}
-	return a.scanForward(u, path, v)
+	return a.scanForward(u, path, v, obj)
 }
 
 // walkUnit visits every call inside body that belongs to this unit (closures
@@ -802,6 +1106,7 @@ func (a *analysis) walkUnit(u *unit, file string) {
 		if lit, ok := n.(*ast.FuncLit); ok {
 			nlit++
 			sub := a.mkUnit(fmt.Sprintf("%s$%d", u.name, nlit), lit.Type, lit.Body)
+			sub.parent = u
 			a.walkUnit(sub, file)
 			return false
 		}
@@ -810,9 +1115,12 @@ func (a *analysis) walkUnit(u *unit, file string) {
 				disp, detail := a.classify(u, call, stack)
 				pos := a.fset.Position(call.Pos())
 				s := site{Pkg: a.pkgName, Func: u.name, Callee: callee, File: file, Line: pos.Line, Disp: disp, Detail: detail, Prim: prim}
+				s.ID = a.pkgName + ":" + u.name + ">" + shortCallee(callee)
+				s.Code = dispCode[disp]
 				for _, al := range allowList {
 					if al.Pkg == s.Pkg && al.Func == s.Func && al.Callee == s.Callee {
 						s.Allowed = al.Why
+						s.Code = 0
 					}
 				}
 				a.sites = append(a.sites, s)
@@ -895,6 +1203,10 @@ func main() {
 		}
 		res.Sites = append(res.Sites, a.sites...)
 		res.Indirect = append(res.Indirect, a.indirect...)
+		res.Shapes = append(res.Shapes, a.shapes()...)
+		for f := range a.readCaches {
+			res.ReadCaches = append(res.ReadCaches, p+":"+f)
+		}
 		var fl []string
 		for fn := range a.fallible {
 			fl = append(fl, recvName(fn)+fn.Name())
@@ -909,6 +1221,7 @@ func main() {
 		return res.Sites[i].Line < res.Sites[j].Line
 	})
 	sort.Strings(res.Indirect)
+	sort.Strings(res.ReadCaches)
 	b, err := json.MarshalIndent(res, "", " ")
 	if err != nil {
 		die("%v", err)
